@@ -60,7 +60,11 @@ func Create() *Builder {
 // Interface 指定接口类型的变量定义
 // iFace 必须是指针类型, 比如 i 为 interface 类型变量, iFace 传递&i
 func (b *Builder) Interface(iFace interface{}) *CachedInterfaceMocker {
+	// 同一类型的不同接口变量需要各自独立的 Mocker(context 和变量绑定), 因此缓存 key 需要带上变量地址
 	mKey := reflect.TypeOf(iFace).String()
+	if v := reflect.ValueOf(iFace); v.Kind() == reflect.Ptr {
+		mKey = fmt.Sprintf("%s_%d", mKey, v.Pointer())
+	}
 	if mocker, ok := b.mockers[mKey]; ok && !mocker.Canceled() {
 		b.reset2CurPkg()
 		return mocker.(*CachedInterfaceMocker)
